@@ -42,6 +42,9 @@ def _tables_pred(p, acc, ds):
         return
     if p[0] in ("in", "exists", "cmp"):
         _tables_query(p[1], acc, ds)
+    elif p[0] == "cmp2":
+        _tables_query(p[1], acc, ds)
+        _tables_query(p[2], acc, ds)
     elif p[0] == "and":
         _tables_pred(p[1], acc, ds)
         _tables_pred(p[2], acc, ds)
@@ -248,6 +251,9 @@ def _visit_pred(p, env, K, ds):
         return
     if p[0] in ("in", "exists", "cmp"):
         eval_query(p[1], env, K, ds)
+    elif p[0] == "cmp2":
+        eval_query(p[1], env, K, ds)
+        eval_query(p[2], env, K, ds)
     elif p[0] == "and":
         _visit_pred(p[1], env, K, ds)
         _visit_pred(p[2], env, K, ds)
